@@ -225,6 +225,17 @@ func (stream *DataStreamReader) nextValid() (rec *Record, offset uint32, sizeBro
 	return nil, offset2, sizeBroken, nil
 }
 
+// nextValidOrTailErr is used when a header claims more bytes than the file holds: either a damaged
+// size field (valid records may follow: resynchronise) or a partial record at the end of the file
+// (nothing valid follows: report the unreadable tail as before).
+func (stream *DataStreamReader) nextValidOrTailErr(readErr error) (rec *Record, offset uint32, sizeBroken uint32, err error) {
+	rec, offset, sizeBroken, err = stream.nextValid()
+	if err == nil && rec == nil {
+		err = readErr
+	}
+	return
+}
+
 func (stream *DataStreamReader) Next() (res *Record, offset uint32, sizeBroken uint32, err error) {
 	wrec := newWriteRecord()
 	if _, err = io.ReadFull(stream.rbuf, wrec.header[:]); err != nil {
@@ -249,12 +260,12 @@ func (stream *DataStreamReader) Next() (res *Record, offset uint32, sizeBroken u
 	wrec.rec.Key = make([]byte, wrec.ksz)
 	if _, err = io.ReadFull(stream.rbuf, wrec.rec.Key); err != nil {
 		logger.Errorf(err.Error())
-		return
+		return stream.nextValidOrTailErr(err)
 	}
 	wrec.rec.Payload.Body = stream.maxBodyBuf[:wrec.vsz]
 	if _, err = io.ReadFull(stream.rbuf, wrec.rec.Payload.Body); err != nil {
 		logger.Errorf(err.Error())
-		return
+		return stream.nextValidOrTailErr(err)
 	}
 	recsizereal, recsize := wrec.rec.Sizes()
 	tail := recsizereal & 0xff
